@@ -6,6 +6,9 @@ ROOT = os.path.dirname(os.path.dirname(os.path.abspath(__file__)))
 
 # id -> (level, technique, level text, level note, design ref)
 CHECKS = {
+    "C11": ("exploration", "runtime monitoring: snapshot-and-reread monitor — every tracked node is read out in full right after production and again after each step of a generated history of later library operations (builder reset/reuse, assign-and-extend, transforms, walks, subset matches, further loads and decodes)",
+            "Held on the histories observed: no tracked node from any producer changed its read-out, and no accessor disagreed with itself on a second read. Sampling of producers and histories.",
+            "Trusted: internal/obs read-out monitor. Callers writing into slices they own are excluded as the property states.", "DESIGN.md §2 C11"),
     "C05": ("exploration", "runtime monitoring: histories of store/compute/load operations checked online against a sequential model (write-once map) with reference links (stdlib digests, hand-built CIDs) over reference block bytes",
             "Held on the histories observed: every Store/ComputeLink returned the reference link, storage held exactly the reference bytes, every load form returned the stored value and bytes, results handed out earlier did not change later. Sampling of histories and configurations.",
             "Trusted: internal/ref/link, internal/ref/cbor, stdlib crypto; for cbor/json/dag-json the expected bytes come from the codec's own direct Encode.", "DESIGN.md §2 C05"),
